@@ -7,8 +7,9 @@ EXPLANATION = (
     "an isinstance guard and tests super().__eq__() against NotImplemented before using it as a bool; a class overriding "
     "__eq__ on a hashable inspect base defines __hash__; replace() obtains its result from super().replace, re-establishes "
     "every added slot (receiver's value unless overridden); bind/bind_partial/__str__/parameters/_hash_basis are inherited "
-    "unchanged and the parameter list goes to the validating base constructor. It does NOT decide reflexivity/symmetry/"
-    "hash-consistency as value laws.")
+    "unchanged and the parameter list goes to the validating base constructor; eval() in the annotation wrappers only sees text "
+    "(C14.R7) and every __eq__ is reflexive by shape (identity shortcut, or plain attributes after super().__eq__; C14.R8). It does "
+    "NOT decide symmetry/hash-consistency as value laws.")
 ASSUMPTIONS = [
     "inspect.Signature/Parameter implement __eq__ (returning NotImplemented for foreign objects), __hash__, replace, bind as documented",
     "Python sets __hash__ = None for a class that defines __eq__ without __hash__",
